@@ -148,6 +148,13 @@ type Engine struct {
 	deferred  []deferredCall
 	hintSites []hintSite
 	frozen    map[string]bool
+	pkgInit   map[*ssa.Package]bool
+	inInit    bool
+	// globalWriters: pkg.Name -> functions (other than init) that store to the global
+	globalWriters map[string][]string
+	globalsRead   map[string]bool
+	opaqueUsed    map[string]bool
+	noCover       bool
 }
 
 func (e *Engine) note(s string) { e.notes[s] = true }
@@ -484,6 +491,12 @@ func (a *absCtx) abstractValue(t types.Type, name string, idx []*Term) Value {
 		if a.depth > 6 {
 			return VOpaque{Kind: "deep-pointer"}
 		}
+		if n, ok := u.Elem().(*types.Named); ok && n.Obj().Pkg() != nil && !strings.HasPrefix(n.Obj().Pkg().Path(), modulePrefix) {
+			np := namedPath(u.Elem())
+			if np != "math/big.Int" && np != "github.com/consensys/gnark-crypto/field/goldilocks.Element" {
+				return VOpaque{Kind: "extptr:" + np}
+			}
+		}
 		obj := newObject(name, u.Elem())
 		a.depth++
 		a.s.heap[obj] = a.abstractValue(u.Elem(), name, idx)
@@ -685,7 +698,11 @@ func (e *Engine) sliceSeq(s *State, sl VSlice) *Seq {
 	if sl.Obj == nil {
 		return &Seq{Conc: []Value{}}
 	}
-	switch x := s.heap[sl.Obj].(type) {
+	hv, ok := s.heap[sl.Obj]
+	if !ok {
+		hv = e.globalVal[sl.Obj]
+	}
+	switch x := hv.(type) {
 	case *Seq:
 		return x
 	case VArr:
